@@ -60,13 +60,17 @@ def check_case(ctx, case):
                 ctx.fail("segments do not tile the new product", case)
             a0 = str(p0.seq)
             a1 = str(p1.seq)
-            seg0 = dict(s0)[rid]
-            seg1 = dict(s1)[rid]
-            k0 = segment_start(p0, rid)      # where the generated source feature places the segment
-            if k0 is None or a0[k0:k0 + len(seg0)] != seg0 or a0[:k0] + seg1 + a0[k0 + len(seg0):] != a1:
-                ctx.fail("the new product is not the old one with only that module's segment replaced", case)
-            if seg1.upper() != case["expected_segment"].upper():
-                ctx.fail("the replaced segment is {!r}, expected {!r}".format(seg1, case["expected_segment"]), case)
+            if rid not in dict(s0) or rid not in dict(s1):
+                ctx.fail("the product carries no segment attributed to the module {} (segments: {})".format(
+                    rid, [n for n, _ in s1]), case)
+            else:
+                seg0 = dict(s0)[rid]
+                seg1 = dict(s1)[rid]
+                k0 = segment_start(p0, rid)      # where the generated source feature places the segment
+                if k0 is None or a0[k0:k0 + len(seg0)] != seg0 or a0[:k0] + seg1 + a0[k0 + len(seg0):] != a1:
+                    ctx.fail("the new product is not the old one with only that module's segment replaced", case)
+                if seg1.upper() != case["expected_segment"].upper():
+                    ctx.fail("the replaced segment is {!r}, expected {!r}".format(seg1, case["expected_segment"]), case)
     if case.get("backbone_site"):
         ctx.note("replacement-with-site-in-backbone")
     ctx.note("chain={}".format(len(case["mods"])))
